@@ -650,6 +650,23 @@ func genCfg(r *rng.R, dev uint32) cfgGen {
 		}
 		g.toks = append(g.toks, fmt.Sprintf("bc=%d.%d.%d.%d:%d", b[0], b[1], b[2], b[3], port))
 	} else {
+		// no broadcast address configured - every third time as it comes out of a JSON configuration: the key given as
+		// "" (the library's own encoding of 'not set'), as null, or the not-set value written and read back
+		if r.Chance(1, 3) {
+			text := rng.Pick(r, `""`, `null`, "round-trip")
+			if text == "round-trip" {
+				b, _ := json.Marshal(types.BroadcastAddr{})
+				text = string(b)
+			}
+			var v struct {
+				Broadcast types.BroadcastAddr `json:"broadcast"`
+			}
+			func() {
+				defer func() { recover() }()
+				json.Unmarshal([]byte(`{"broadcast":`+text+`}`), &v) // rejected or accepted: either way nothing is configured
+			}()
+			g.broadcast = v.Broadcast
+		}
 		g.toks = append(g.toks, "bc=-")
 	}
 	add := func(serial uint32) {
